@@ -230,7 +230,8 @@ func (w *world) sendReq(id string) {
 	payload := `{"query":"id=` + id + `"}`
 	switch {
 	case strings.HasPrefix(id, "badjson"):
-		payload = `{"query":`
+		// not a JSON text: cut short, or a complete query object followed by more
+		payload = []string{`{"query":`, `{"query":"id=` + id + `"}]`, `{"query":"id=` + id + `"} {"query":"id=other"}`, `{"query":"id=` + id + `"}x`}[len(id)%4]
 	case strings.HasPrefix(id, "badnoq"):
 		payload = `{}`
 	}
@@ -507,6 +508,16 @@ func reuseHistory(seed int64) rec {
 	w.setBeh("a1", "")
 	w.sendReq("a1")
 	time.Sleep(3*time.Millisecond + 25*time.Millisecond) // expired, listener gone
+	for t := 0; t < 2000; t++ { // (on a busy machine: wait until that is really so)
+		o := w.obs()
+		o.mu.Lock()
+		ended := len(o.cblog) > 0 && o.cblog[len(o.cblog)-1] == "nil"
+		o.mu.Unlock()
+		if ended && listenerCount() == 0 {
+			break
+		}
+		time.Sleep(time.Millisecond)
+	}
 	nlate := 1 + rng.Intn(3)
 	var late []string
 	if oldSub != nil {
